@@ -15,6 +15,7 @@ shown to compute exactly these structural verifiers for 32-byte keys (`verifyInc
 -/
 import FuelVerif.Lemmas.SparseProof
 import FuelVerif.Props.C12
+import FuelVerif.Lemmas.SparseBytes
 namespace FuelVerif.Smt
 open Tree
 
@@ -174,5 +175,30 @@ theorem history_proofs (hext : KeyExt bit n) (hcf : CollisionFree P) (ops : List
   · intro hv; exact exclusion_complete bit n P k t hc (by rw [hg]; exact hv)
   · intro v s h; rw [← hg]; exact inclusion_sound bit n P hcf k v t s h
   · intro s leaf h; rw [← hg]; exact exclusion_sound bit n P hcf k t s leaf h
+
+/-! ### at fuel-merkle's concrete types -/
+
+open FuelVerif.SmtBytes FuelVerif.Gen.Sparse in
+/-- **C14 for 32-byte keys, SHA-like hash functions and the verifiers' real length bound**: with `H`
+collision-free on the 65-byte tagged inputs and never zero (`HashOK`), all five clauses of
+`history_proofs` hold at `n = maxProofLen = 256` for the statement's hash constructors. The byte-level
+verifiers of `sparse/proof.rs` compute exactly these verifiers (`SmtBytes.verifyInclusion_bytes`,
+`SmtBytes.verifyExclusion_bytes`). -/
+theorem history_proofs_bytes (H : Bytes → Bytes) (hok : HashOK H) (ops : List (Op Key32 Hash32))
+    (k : Key32) :
+    let P := hashes32 H hok.len
+    let t := run bit32 maxProofLen ops
+    ((generateProof bit32 P k t).isInclusion = true ↔ (finalMap ops k).isSome = true) ∧
+    (∀ v, finalMap ops k = some v →
+      ∃ s, generateProof bit32 P k t = .inclusion s ∧
+        verifyInclusion bit32 P maxProofLen (t.hash P) k v s = true) ∧
+    (finalMap ops k = none →
+      ∃ s leaf, generateProof bit32 P k t = .exclusion s leaf ∧
+        verifyExclusion bit32 P maxProofLen (t.hash P) k s leaf = true) ∧
+    (∀ v s, verifyInclusion bit32 P maxProofLen (t.hash P) k v s = true → finalMap ops k = some v) ∧
+    (∀ s leaf, verifyExclusion bit32 P maxProofLen (t.hash P) k s leaf = true → finalMap ops k = none) := by
+  have h := history_proofs bit32 width (hashes32 H hok.len) keyExt_bytes (collisionFree_bytes H hok) ops k
+  rw [← maxProofLen_eq_width] at h
+  exact h
 
 end FuelVerif.Smt
